@@ -109,6 +109,10 @@ func streamIsolation(o *Out, r *rand.Rand, n int, thorough bool) {
 			o.Sum.Skipped++
 			continue
 		}
+		if o.Skipped(i, src) {
+			continue
+		}
+		o.Current(i, src)
 		before := dumpTree(stmt)
 		first := runVM(stmt, -1, 3*time.Second)
 		if first.hung {
